@@ -323,7 +323,11 @@ class _CommonFile:
 
     def _encode_user(self, user):
         """user-specific wrapper for _encode_field()"""
-        return self._encode_field(user, "user")
+        user = self._encode_field(user, "user")
+        if user.lstrip().startswith(_BHASH):
+            # the line would be read back (by apache, and by _load_lines) as a comment
+            raise ValueError(f"user may not start with '#': {user!r}")
+        return user
 
     def _encode_realm(self, realm):  # pragma: no cover - abstract method
         """realm-specific wrapper for _encode_field()"""
